@@ -155,6 +155,32 @@ def run(ctx: Ctx):
                                 row["check_off"] = int(d.utcoffset().total_seconds()) == row["off_prov"]
                             ev.append(row)
                             meta.append(case)
+                            # the END of an explicit period is a zoned value in its own right: same rules, its own offset
+                            # (start and end often lie on opposite sides of the transition the wall time was chosen at)
+                            if kind == "period" and src == prov and key != "UTC":
+                                for span in (timedelta(days=2), timedelta(hours=3)):
+                                    try:
+                                        end = tzp.localize(naive + span, tz)
+                                        if end.replace(tzinfo=None) != naive + span or not end > d:
+                                            continue
+                                        fb = FreeBusy()
+                                        fb.add("freebusy", (d, end))
+                                        bb = fb.to_ical()
+                                        ps2, dts2 = line_facts(bb, "FREEBUSY")
+                                        v2 = FreeBusy.from_ical(bb)["FREEBUSY"]
+                                        out = (v2[0] if isinstance(v2, list) else v2).dt[1]
+                                        row2 = {"k": "zoned", "kind": "period-end", "key": key, "src": "named", "wall_in": wall_min(end),
+                                                "has_z": len(dts2) > 1 and dts2[1][1] == "Z", "tzid": (ps2 or {}).get("TZID", ""),
+                                                "wall_text": text_wall(dts2[1][0]) if len(dts2) > 1 else [],
+                                                "wall_out": wall_min(out) if isinstance(out, datetime) else [],
+                                                "key_out": key_of(out) if isinstance(out, datetime) else "none",
+                                                "off_out": int(out.utcoffset().total_seconds()) if isinstance(out, datetime) and out.tzinfo else -99999,
+                                                "off_prov": int(end.utcoffset().total_seconds()), "check_key": True, "check_off": True}
+                                    except Exception as e:   # noqa: BLE001
+                                        ctx.fail("P:C11:write-read-total", {**case, "exc": type(e).__name__, "what": "period end"}, str(e)[:200], None)
+                                        continue
+                                    ev.append(row2)
+                                    meta.append({**case, "kind": "period-end", "span": str(span)})
                 # UTC-forced properties
                 naive = datetime(2024, rnd.randint(1, 12), rnd.randint(1, 28), rnd.randint(0, 23), rnd.randint(0, 59), rnd.randint(0, 59))
                 dt = tzp.localize(naive, tz)
